@@ -32,7 +32,9 @@ RULE = ('case = one block of save_/load_ calls of the real functions on 1-3 temp
         'significant digits, log-uniform raw in [1e-4,100], half-way points of the 4th decimal, int/float32/float64. '
         'labels: default, spaces, digits, header look-alikes, empty, comma, #, random printable ASCII. m in '
         '{1,2,0.5,-1,9.81,random}. sweep: save/load of every dt=k/10000 in the enumerated range. distinct = digest of '
-        '(all saved records, dt, labels, call list); non-trivial = some saved record has a value that does not round '
+        '(all saved records, dt, labels, call list); long: npts in {65535, 65536, 65537, 70001, 131072, 131073, 200003} '
+        '(thorough: also 2**p and 2**p+-1 and random lengths around 2**p for p=10..18, and up to 524289 points), each '
+        'through both savers and every loader entry point; non-trivial = some saved record has a value that does not round '
         'to 0.')
 ASSUMPTIONS = ['the format holds values to 6 and dt to 4 decimals: "same to nd decimals" = the multiple of 10**-nd nearest '
                'to the saved number; within 4 ulps of a half-way point (exact ties included) either neighbour is accepted',
@@ -51,14 +53,15 @@ MIN_EVALS = {'quick': {'npts': 120000, 'dt==round4(saved)': 120000, 'values==m*r
                        'type.load_values_and_dt->(ndarray,float)': 65000, 'type.load_signal(default|sig)->Signal': 11000,
                        'type.load_signal(signal)->Signal': 10000, 'type.load_signal(acc_sig)->AccSignal': 10000,
                        'type.load_sig->Signal': 11000, 'type.load_asig->AccSignal': 14000,
-                       'history.same-path-reload': 20000},
+                       'history.same-path-reload': 20000, 'long-record(>65536).reload': 40},
              'thorough': {'npts': 2200000, 'dt==round4(saved)': 2200000, 'values==m*round6(saved)': 2200000,
                           'dt.within-half-4th-decimal': 2200000, 'values.within-half-6th-decimal': 2200000,
                           'label==saved(load_label=True)': 200000, 'call-returns': 2000000,
                           'type.load_values_and_dt->(ndarray,float)': 1200000,
                           'type.load_signal(default|sig)->Signal': 200000, 'type.load_signal(signal)->Signal': 180000,
                           'type.load_signal(acc_sig)->AccSignal': 180000, 'type.load_sig->Signal': 200000,
-                          'type.load_asig->AccSignal': 250000, 'history.same-path-reload': 300000}}
+                          'type.load_asig->AccSignal': 250000, 'history.same-path-reload': 300000,
+                          'long-record(>65536).reload': 150}}
 
 CTX = None
 REG = {}        # realpath -> {'saved': op dict of the last successful save (None = unknown), 'pid': int, 'n_saves': int}
@@ -99,8 +102,28 @@ def _describe_dt(dt):
     return dt, type(dt).__name__
 
 
+BIG = 20000      # records longer than this are not written value by value into a witness
+
+
+def _pack(arr):
+    import base64
+    import zlib
+    arr = np.ascontiguousarray(arr)
+    return {'packed_b64': base64.b64encode(zlib.compress(arr.tobytes(), 1)).decode('ascii'), 'dtype': str(arr.dtype),
+            'n': int(arr.size)}
+
+
+def _unpack(d):
+    import base64
+    import zlib
+    return np.frombuffer(zlib.decompress(base64.b64decode(d['packed_b64'])), dtype=d['dtype']).copy()
+
+
 def _rebuild_values(op):
-    arr = np.asarray(op['values'])
+    v = op['values']
+    if isinstance(v, dict) and 'packed_b64' in v:
+        v = _unpack(v)
+    arr = np.asarray(v)
     c = op.get('container', 'ndarray')
     if c == 'list':
         return arr.tolist()
@@ -153,11 +176,33 @@ def _witness(key, **extra):
             raw = f.read()
     except OSError:
         raw = None
-    w = {'ops': [dict(o) for o in LOG], 'log_truncated': LOG_STATE['truncated'], 'pid': PIDS.get(key),
-         'prelude_ops': [dict(o) for o in PRELUDE] if LOG_STATE['cases_done'] else [], 'file_bytes': raw,
+    w = {'ops': [_wit_op(o) for o in LOG], 'log_truncated': LOG_STATE['truncated'], 'pid': PIDS.get(key),
+         'prelude_ops': [_wit_op(o) for o in PRELUDE] if LOG_STATE['cases_done'] else [],
          'file_text_head': (raw or b'')[:400].decode('utf-8', 'replace')}
+    if raw is not None and len(raw) > 8 * BIG:     # long file: size, line count and hash instead of the bytes
+        import hashlib
+        w.update(file_bytes=None, file_size=len(raw), file_lines=raw.count(b'\n') + 1,
+                 file_sha1=hashlib.sha1(raw).hexdigest(), file_text_tail=raw[-200:].decode('utf-8', 'replace'))
+    else:
+        w['file_bytes'] = raw
+    if RECIPE:
+        w['recipe'] = dict(RECIPE)     # the driver's deterministic generator of this block: replay regenerates the ops
     w.update(extra)
     return w
+
+
+RECIPE = {}
+
+
+def _wit_op(o):
+    d = dict(o)
+    v = d.get('values')
+    if isinstance(v, np.ndarray) and v.size > BIG:
+        if RECIPE:
+            d['values'] = {'omitted_long_values': int(v.size), 'head': v[:5], 'tail': v[-5:], 'see': 'recipe'}
+        else:
+            d['values'] = _pack(v)
+    return d
 
 
 def end_case(remove=True):
@@ -236,7 +281,10 @@ def _expected(saved):
         okk = O.dt_in_domain(dt) and O.label_in_domain(label)
     if okk:
         fl = [float(v) for v in arr.tolist()]
-        prim, alts = O.round_series(fl, 6)
+        if len(fl) >= 4096:      # long records: same reference, per-value work vectorised (cross-checked in the oracle)
+            prim, alts = O.round_series_fast(np.array(fl, dtype=float), 6)
+        else:
+            prim, alts = O.round_series(fl, 6)
         dprim, dalt = O.round_decimals(float(dt), 4)
         exp = {'n': len(fl), 'v': np.array(fl, dtype=float), 'prim': np.array(prim, dtype=float), 'alts': alts,
                'dt': float(dt), 'dt_prim': dprim, 'dt_alt': dalt, 'label': label}
@@ -323,10 +371,18 @@ def _model(key):
     return exp, e
 
 
+LONG_N = 65536
+
+
 def _history_tick(e):
-    """Counts loads that read a path which has been overwritten at least once (the HISTORY regime)."""
-    if e is not None and e.get('n_saves', 0) >= 2 and attach.STATE['depth'] == 0:
-        CTX.ok('history.same-path-reload')
+    """Counts loads that read a path which has been overwritten at least once (the HISTORY regime), and loads of
+    long records (more than 2**16 points)."""
+    if e is not None and attach.STATE['depth'] == 0:
+        if e.get('n_saves', 0) >= 2:
+            CTX.ok('history.same-path-reload')
+        sv = e.get('saved')
+        if sv and isinstance(sv.get('values'), np.ndarray) and sv['values'].size > LONG_N:
+            CTX.ok('long-record(>65536).reload')
 
 
 # ------------------------------------------------------------------------------------------- load monitors
@@ -841,6 +897,64 @@ def run_sweep(eqsig, ctx, tmpd):
     ctx.exhaustive['dt_sweep_cases'] = n_done
 
 
+# ------------------------------------------------------------------------------------------- long records
+LONG_QUICK = [65535, 65536, 65537, 70001, 131072, 131073, 200003]
+LONG_VALUE_CLASSES = ['record', 'record', 'record', 'manydigit', 'f32', 'int', 'mixed']
+
+
+def long_plan(tier, seed):
+    """Deterministic list of (npts, saver) of the long round trips of a run: both savers for every length."""
+    lens = list(LONG_QUICK)
+    if tier != 'quick':
+        r = np.random.default_rng([int(seed), 16, 778])
+        for p in range(10, 19):
+            lens += [2 ** p - 1, 2 ** p, 2 ** p + 1, 2 ** p + int(r.integers(2, 2 ** (p - 1))),
+                     2 ** p - int(r.integers(2, 2 ** (p - 2)))]
+        lens += [196608, 196609, 300007, 393217, 500000, 524287, 524288, 524289]
+    plan = []
+    for n in lens:
+        plan.append((n, 'save_signal'))
+        plan.append((n, 'save_values_and_dt'))
+    plan.sort(key=lambda t: -t[0])      # round robin over the shards in order of cost
+    return plan
+
+
+def case_long(tier, seed, idx):
+    """Ops of long round trip number idx of the plan: one save, then every loader entry point. Deterministic."""
+    n, saver = long_plan(tier, seed)[idx]
+    rng = np.random.default_rng([int(seed), 16, 777, int(idx)])
+    vals, vcls = gen_values(rng, n, LONG_VALUE_CLASSES[int(rng.integers(len(LONG_VALUE_CLASSES)))])
+    dt, dcls = gen_dt(rng)
+    dtv, dtt = _describe_dt(dt)
+    label, deflabel, lcls = gen_label(rng)
+    if saver == 'save_signal':
+        sv = {'op': 'save_signal', 'sigtype': 'AccSignal' if idx % 4 < 2 else 'Signal', 'values': vals,
+              'container': 'ndarray', 'dt': dtv, 'dt_type': dtt, 'label': label, 'default_label': deflabel}
+    else:
+        cont = 'list' if (idx % 8 == 5 and vals.dtype != np.float32) else 'ndarray'
+        sv = {'op': 'save_values_and_dt', 'values': vals, 'container': cont, 'dt': dtv, 'dt_type': dtt, 'label': label,
+              'kw': False}
+    info = {'values': vcls, 'dt': dcls, 'label': lcls, 'n': n}
+    sv['_info'] = info
+    return [sv] + all_loads(rng), info
+
+
+def run_long(eqsig, ctx, tmpd, counter):
+    plan = long_plan(ctx.tier, ctx.seed)
+    off = ctx.seed % ctx.nshards          # which shards get the long records moves with the seed
+    for idx in range(len(plan)):
+        if (idx + off) % ctx.nshards != ctx.shard:
+            continue
+        RECIPE.update(tier=ctx.tier, seed=int(ctx.seed), idx=idx)
+        try:
+            ops, info = case_long(ctx.tier, ctx.seed, idx)
+            _run_case(eqsig, ctx, tmpd, ops, 'long(npts=%s)' % ('2^16+-1' if abs(plan[idx][0] - 65536) <= 1 else
+                                                               ('>2^16' if plan[idx][0] > 65536 else '<2^16')),
+                      info, counter)
+        finally:
+            RECIPE.clear()
+
+
 N_CASES = {'quick': {'oneshot': 6000, 'history': 2400, 'interleaved': 800},
            'thorough': {'oneshot': 90000, 'history': 36000, 'interleaved': 12000}}
 
@@ -867,6 +981,7 @@ def run_shard(ctx):
                     ctx.observe('random-part-cut-by-budget')
                     break
         run_sweep(eqsig, ctx, tmpd)
+        run_long(eqsig, ctx, tmpd, counter)      # last, so that the prelude of a witness is never a long record
         ctx.note('monitored_calls', dict(attach.CALLS))
     finally:
         end_case()
@@ -887,8 +1002,11 @@ def replay(w):
             end_case()
             ctx = core.Ctx(PROP_ID, 'quick', 0, 0, 1)      # only the witness block is judged by the replay
             install(ctx)
-        for op in w['ops']:
-            path = os.path.join(tmpd, 'p%s.txt' % op.get('pid', 0))
+        ops = w['ops']
+        if w.get('recipe'):          # long record: regenerate the block from the driver's deterministic recipe
+            ops = case_long(w['recipe']['tier'], w['recipe']['seed'], w['recipe']['idx'])[0]
+        for op in ops:
+            path = os.path.join(tmpd, 'p%s.txt' % op.get('pid', op.get('pid_local', 0)))
             execute(eqsig, ctx, op, path)
     finally:
         end_case()
